@@ -4,8 +4,8 @@ import json, subprocess
 
 CHECKS = {
  "C11": dict(level="exploration", design="5/C11", technique="complete grid over kernels x operations x lengths x alignments x contents x scalars against element-wise reference arithmetic, in release and debug-assertions builds",
-   text="Every kernel compiled for x86-64 (AVX-512, AVX2, SSSE3, portable; each called individually through the hook, so dead code on this CPU is executed) and the dispatcher, every length 0..=320 (200 quick), destination offsets 0..63, 7 source offsets, all 256 scalars on boundary lengths, rotations giving every lane every byte value, one-hot positions and packed bit vectors with every padding-bit count; results must equal element-wise GF(256) arithmetic and nothing outside the destination may change.",
-   note="NEON cannot execute here; lengths > 320 not enumerated."),
+   text="Every kernel compiled for x86-64 (AVX-512, AVX2, SSSE3, portable; each called individually through the hook, so dead code on this CPU is executed) and the dispatcher, every length 0..=320 with destination offsets 0..63 and 7 source offsets, every length 321..=1100 (thorough 2200 and around 4096/8192/65536) with boundary offsets, all 256 scalars on boundary lengths, rotations giving every lane every byte value, one-hot positions and packed bit vectors with every padding-bit count; results must equal element-wise GF(256) arithmetic and nothing outside the destination may change.",
+   note="NEON cannot execute here; lengths above 1100 (thorough 2200) only around powers of two."),
  "C12": dict(level="exploration", design="5/C12", technique="the C11 kernel grid, the complete slab pair grid and whole encode/decode workloads enumerated under a guard-page allocator (every heap operand flush against a PROT_NONE page, at its end and at its start) in child processes",
    text="Out-of-bounds accesses are made observable rather than inferred: a page-heap global allocator places every heap allocation against an inaccessible page; the complete kernel grid, all (dest, src) pairs of 1..6-symbol slabs with four mappings, and encode/decode workloads run under both placements; a fault is a violation with the case in flight as replay. Aliasing/range refusals and the index-range facts of the unchecked table look-ups are enumerated completely.",
    note="Stacked-borrows aliasing is judged by Miri on fixed replays in the thorough tier only (harness-miri); NEON cannot execute."),
@@ -21,24 +21,24 @@ CHECKS = {
  "C19": dict(level="exploration", design="5/C19", technique="complete grid T x Z x boundary-F x Al against a u128 acceptance predicate",
    text="Every T (thorough: all 65535) x every Z x every F adjacent to a limit or to a 2^32 multiple of the symbol count x alignment classes is passed to the real constructor under catch_unwind; accept/refuse must equal the documented predicate evaluated in u128 and accepted values must be echoed.",
    note="F off the boundary sets is not enumerated; limits are those documented on the constructor (errata 5548 and 4.4.1.2)."),
- "C01": dict(level="exploration", design="5/C01", technique="exhaustive subset-lattice exploration of a real Decoder (clone per branch) over a configuration box, plus deviation-bounded histories for all 954 block sizes; ground-truth oracle",
-   text="Every subset (in canonical and in reverse order) of a per-object packet universe is delivered to a real Decoder for every configuration of a box built around the code's case distinctions (F mod T, Z with KL!=KS, N with TL!=TS, padded short blocks); every answer must be None or the object, Some once all source packets are in. All 477 K' and their min-K partners are driven through erasure/repair histories.",
-   note="One data pattern per configuration (other contents by linearity, C09); Kt<=4 in the subset box."),
+ "C01": dict(level="exploration", design="5/C01", technique="exhaustive subset-lattice exploration of a real Decoder (clone per branch) over a configuration box (sets in two orders and multisets), plus deviation-bounded histories over wide/tall shapes and all 954 block sizes; ground-truth oracle",
+   text="Every subset (in canonical order, in reverse order, and in reverse order with every packet delivered twice) of a per-object packet universe is delivered to a real Decoder for every configuration of a box built around the code's case distinctions (F mod T, Z with KL!=KS, N with TL!=TS, padded short blocks); every answer must be None or the object, Some once all source packets are in. Wide shapes (T up to 24/64, every Al and N, up to 10/14 symbols, 6/8 blocks) and tall objects (every symbol count 11..130/330 with 2..4/6 blocks, so block sizes straddle every table size K') are driven through bounded deviations (one erased source symbol per block, interleaved blocks, a duplicate, three repair packets, the late packet; repair-only). All 477 K' and their min-K partners are driven through erasure/repair histories.",
+   note="One data pattern per configuration (other contents by linearity, C09); full subset enumeration only for Kt<=4."),
  "C02": dict(level="model_checking", design="5/C02", technique="state-graph exploration (DFS over clones of the real SourceBlockDecoder, one packet per transition) with an independent GF(256) rank oracle evaluated on every node; erasure-bounded",
    text="The state graph of a real block decoder under all deliveries of subsets of a packet universe (bounded number of erased source symbols, every subset of H+4 near and 4 far repair symbols) is explored on clones; at every node the answer must equal [all source present or rank = L] computed by an independent incremental echelon basis over the RFC constraint matrix, and bytes must be the data. Counts of legitimate failures, fast-path entries and forced fall-backs prove non-vacuity. Also run in the debug-assertions build.",
    note="Reference tables transcribed from the pinned commit. Canonical arrival order per node (order independence is C08). Large K only with fixed erasure patterns."),
  "C03": dict(level="exploration", design="5/C03 and section 7", technique="complete enumeration of all (K+h)-subsets, h in {0,1,2}, of fixed finite universes with exact failure counts and a rank oracle",
    text="Bounded version of a statistical claim: for fixed universes every subset of size K, K+1, K+2 (not containing all source symbols) is decoded by the real decoder; each failure must be a genuine rank deficiency, and the exact aggregate failure fractions must satisfy the property's thresholds (<1%, <0.01%, <0.001%) and be non-increasing.",
    note="Decides the property only for the listed finite universes (no sampling, no estimate of the distribution over all 2^24 symbols and all K)."),
- "C08": dict(level="model_checking", design="5/C08", technique="explicit-state exploration to closure of real decoder objects (exact canonical state key confirmed by ==) against an abstract set model; all batchings of pairs/triples; three interfaces in lock-step",
-   text="All decoder states reachable under delivery of any universe packet at any time (any order, multiplicity, continuation after completion, block interleaving) are enumerated to closure; every transition is compared with the abstract answer of the delivered set, the counting invariant and interface agreement are checked in every state, and batched delivery must equal one-by-one delivery in answer and state.",
-   note="Closure is relative to fixed packet universes (K in {1,2,4,5,10,12}, objects with Z in {2,3})."),
+ "C08": dict(level="model_checking", design="5/C08", technique="explicit-state exploration to closure: nodes = (real decoder object, delivered packet set), edges = one decode() call with one packet or any ordered pair/triple; exact canonical key confirmed by ==; abstract set model as oracle; both object-level interfaces in lock-step",
+   text="All (decoder object, delivered set) states reachable by calling decode() with any universe packet at any time (any order, multiplicity, continuation after completion, block interleaving) and, on the small universes, with any ordered pair or triple in one call (any mix of batched and single delivery) are enumerated to closure; on every transition the answer must equal the abstract answer of the delivered set (fresh decoder, packet by packet, cross-checked against one call), bytes must be the data, the anchored counting invariant must hold and decode() must agree with add_new_packet()+get_result(). Only observable results are judged: an object that differs after a batch or after the other interface is explored as a further state. Block universes include sub-blocked configurations (N>1).",
+   note="Closure is relative to fixed packet universes (K in {1,2,3,4,5,10,12}, (T,N,Al) up to (12,5,1), objects with Z in {2,3})."),
  "C04": dict(level="exploration", design="5/C04", technique="complete enumeration over all 477 block sizes / whole repair streams against an independent RFC 6330 reference (tuples, constraint matrix, certificate of intermediate symbols, packets, independent Gaussian solve)",
    text="Five layers, each a complete enumeration of its box against rfcref: tuples, the constraint matrix entry by entry for every K', a certificate check of the encoder's intermediate symbols for all 954 (K', min-K) sizes, every source/near/far repair packet against Enc[K',C,Tuple], whole 2^24-K repair streams, and an independent solve for every K<=300.",
    note="Trusted base: V0-V3, Table 2, degree table transcribed from the pinned commit. T in {1,3} here; other symbol sizes are lifted by C09."),
  "C05": dict(level="exploration", design="5/C05", technique="complete enumeration of a configuration box (F,T,Z,N,Al) against a reference layout map, plus Partition[I,J] grid",
    text="Every configuration of the box is encoded by the real Encoder and every payload byte of every source packet is compared with an RFC-written map (SBN,ESI,byte)->object offset/padding; a Decoder must invert it; partition() is compared on a complete grid.",
-   note="Box bounds: Kt<=8 (14), Z<=4 (7), T<=32; larger shapes only encode-only at selected sizes."),
+   note="Box bounds: complete F range for T<=10 (Kt<=8, Z<=4) and T in {1,2,3,4,6} (Kt<=14, Z<=7); wide box T<=32 (64 thorough) with every Al|T and every N, Kt<=12 (16), Z<=7 (9), F at the five remainders that matter; larger shapes only encode-only at selected sizes."),
  "C06": dict(level="exploration", design="5/C06", technique="complete product over all 477 K' x {K', min K} x {dense, sparse} x {direct, plan replay}, certificate check by the reference model; repeated in the debug-assertions build",
    text="For every block size the encoder is built in all four variants on the real code; all variants must succeed, agree, and satisfy every LDPC/HDPC/LT relation evaluated by the reference model. The thorough tier is the complete product (exhaustive over the finite set of block sizes).",
    note="Quick tier restricts the dense back-end to K'<=1100. Checked-profile runs stop at K'=1100 (cubic self-checks)."),
@@ -46,17 +46,17 @@ CHECKS = {
    text="All admissible sequences (depth 3 quick / 4 thorough) of interface operations over boundary alphabets from seeds whose dense tails cross the 64-bit word boundary are applied to a real DenseBinaryMatrix, a real SparseBinaryMatrix and a 2-D array with undefined cells; all cells and all queries must agree in every state. The real solver is additionally run on a matrix that forwards every call to both implementations and the model, for encoding (K'<=101 quick / 500 thorough) and decoding traces, in release and debug-assertions builds.",
    note="Admissibility = preconditions read off the code; matrices whose dense tail was dropped are only exercised with get/set/swap/add/resize."),
  "C17": dict(level="model_checking", design="5/C17", technique="loom DPOR exploration of all interleavings of real threads on the real cache code (shadow manifest over /repo/src), plus explicit-state exploration of request histories on the real global cache against a FIFO model",
-   text="Seven loom harnesses (same size, overlapping sizes, insert races eviction, hit races eviction, double eviction; 2-3 threads; unbounded DPOR where feasible, preemption bound 2-4 otherwise) run the real SourceBlockEncoder::new against the real cache compiled with loom primitives; every execution checks transparency and the cache invariants. Request histories around the capacity are explored to a depth bound with the snapshot as exact state.",
-   note="<= 3 threads; std Mutex internals trusted; loom failure replay = deterministic re-exploration of the named model.", engine="rqcheck+rqloom"),
+   text="Eleven loom harnesses (same size, overlapping sizes, insert races eviction, hit races eviction, double eviction, sizes on the far side of the 250-symbol back-end threshold, large+small at capacity; 2-4 threads; unbounded DPOR where feasible, preemption bound 2-4 otherwise) run the real SourceBlockEncoder::new against the real cache compiled with loom primitives; every execution checks transparency and the cache invariants. Request histories around the capacity are explored to a depth bound with the snapshot as exact state.",
+   note="<= 4 threads; std Mutex internals trusted; loom failure replay = deterministic re-exploration of the named model.", engine="rqcheck+rqloom"),
  "C18": dict(level="exploration", design="5/C18", technique="complete enumeration of windows (s,n), whole repair streams and plan instances; differential oracle (window vs singles, plan vs plan)",
-   text="All windows with s+n<=24 and the windows at the 2^24 end for every K of the ladder, two complete 2^24-K streams under two tilings, six ways of obtaining an encoder per K, and the per-object packet list over a configuration box.",
+   text="All windows with s+n<=24 and the windows at the 2^24 end for every K of the ladder, two complete 2^24-K streams under two tilings, six ways of obtaining an encoder per K, the per-object packet list over a configuration box, and every block of every object (box and tall objects with every symbol count 2..330/1300 in 2..5/7 blocks) against a stand-alone block encoder and an encoder with a freshly generated plan for the same bytes.",
    note="Requests beyond ESI 2^24-1 are outside the property and not judged."),
  "C07": dict(level="exploration", design="5/C07", technique="complete enumeration of the configuration lattice (4 builds x kernel family x threshold x plan mode) with a differential digest oracle",
-   text="Every configuration that exists on this host (144 in the quick tier: {release, debug-assertions+overflow-checks} x {std, no_std} x {auto/AVX-512, AVX2, SSSE3, portable} forced through the dispatchers x sparse threshold {0,250,inf} x {cache cold/warm, explicit plan, unplanned}) runs the same workload; packets, decode outcomes and decoded bytes must be identical for every item, including a rank-deficient set and a set that forces the fast path to fall back.",
-   note="NEON, non-x86 targets and other compilers cannot run here. The debug-assertions builds run a reduced K ladder (cubic self-checks)."),
- "C09": dict(level="exploration", design="5/C09", technique="complete grid K x T (every residue of the kernel strides) x kernel family x plan mode with metamorphic linearity/column-independence relations",
-   text="For every symbol size 1..=192 (130 quick) and boundary sizes, every kernel family and three ways of building the encoder: byte j of every packet equals the 1-byte packet of column j for every j; additivity for all data pairs; homogeneity for all 256 scalars; decode per T.",
-   note="T outside the alphabet is not enumerated; data alphabet {pos, lcg, unit0, ff} lifted by linearity itself."),
+   text="Every configuration that exists on this host (in the quick tier: {release, debug-assertions+overflow-checks} x {std, no_std} x {auto/AVX-512, AVX2, SSSE3, portable} forced through the dispatchers x sparse threshold {0,250,inf} x {cache cold/warm, explicit plan, unplanned}) runs the same workload; packets, decode outcomes and decoded bytes must be identical for every item, including a rank-deficient set and a set that forces the fast path to fall back.",
+   note="NEON, non-x86 targets and other compilers cannot run here. Workload: K ladder x 4 symbol sizes x 2 data patterns plus every K of a contiguous range (1..170 release / 1..110 debug-assertions; 700 / 330 thorough); the debug-assertions builds run the reduced set (cubic self-checks)."),
+ "C09": dict(level="exploration", design="5/C09", technique="complete grid K x T (every residue of the kernel strides) x kernel family x plan mode with metamorphic linearity/column-independence relations, plus a sweep over every symbol size",
+   text="For every symbol size 1..=160 (192 thorough) and boundary sizes, every kernel family and three ways of building the encoder: byte j of every packet equals the 1-byte packet of column j for every j; additivity for all data pairs; homogeneity for all 256 scalars; decode per T. T sweep: every T up to 2100 (thorough: every T up to 65535) and powers of two +-{0,1,2,100}, one encode per T with byte columns carrying fixed patterns, and with structured (zero / constant / periodic) symbols.",
+   note="Quick tier: T above 2100 only around powers of two; data alphabet {pos, lcg, unit0, ff, structured symbols} lifted by linearity itself."),
  "C10": dict(level="exploration", design="5/C10", technique="exhaustive enumeration of the finite domain (256^2 pairs, 256^3 triples, all table entries) against a shift-and-xor reference",
    text="Complete enumeration of the whole finite input domain of the field arithmetic and of every derived table entry against an independent polynomial-arithmetic reference; exhaustive, so the property is decided outright for this build.",
    note="Trusts only the field polynomial 0x11D / generator 2 (the reference checks that 2 generates all 255 units)."),
